@@ -87,6 +87,9 @@ class Leaves:
         self.readonly = readonly
         self.arrays = []
         self.shared = {} if share else None
+        # the caller holds its operands: leaf funsors stay alive for the whole program, so a second use of an equal leaf
+        # meets the very object (hash-consing is weak) with whatever it has cached by then
+        self.alive = []
 
     def make(self, node):
         # equal leaf nodes denote one array, hence (by hash-consing) one Tensor object: generated terms are DAGs with
@@ -141,7 +144,10 @@ def _build(node, leaves):
         if pre is not None and id(node) in pre:
             return pre[id(node)]  # operand created by the caller outside the current context
         inputs = OrderedDict((n, Bint[s]) for n, s in node[1])
-        return Tensor(leaves.make(node), inputs, node[3])
+        t_ = Tensor(leaves.make(node), inputs, node[3])
+        if leaves.shared is not None and len(leaves.alive) < 200:
+            leaves.alive.append(t_)
+        return t_
     if k == "var":
         return Variable(node[1], dom_to_funsor(node[2]))
     if k == "gauss":
@@ -177,7 +183,10 @@ def _build(node, leaves):
         int_order = [n for n in order if n in dict(ints)]
         real_order = [n for n in order if n in dict(reals)]
         assert int_order == [n for n, s in ints] and real_order == [n for n, sh in reals]
-        return Gaussian(white_vec=w, prec_sqrt=S, inputs=OrderedDict((n, doms[n]) for n in order))
+        g_ = Gaussian(white_vec=w, prec_sqrt=S, inputs=OrderedDict((n, doms[n]) for n in order))
+        if leaves.shared is not None and len(leaves.alive) < 200:
+            leaves.alive.append(g_)
+        return g_
     if k == "un":
         x = B(node[2])
         op = node[1]
